@@ -518,9 +518,77 @@ func c15Concurrent(w *core.WorkerCtx) {
 	}
 }
 
+// c15OrphanFlood: a peer keeps sending correctly sealed vertices whose parents the node does not know. The node parks
+// them (500 at most), replays them on its ticks (25 times each at most), gives up on them and parks new ones: over a
+// long life every slot of the orphan buffer is filled, emptied and refilled many times. No such vertex may crash the
+// node, whatever the buffer has been through before.
+func c15OrphanFlood(w *core.WorkerCtx) {
+	r := w.R
+	rig, err := svc.New(4, 60, 2048)
+	if err != nil {
+		r.Inconc("cannot build the node: " + err.Error())
+		return
+	}
+	defer rig.Close()
+	ctx := context.Background()
+	rng := core.Rand(w.Seed, "C15flood", w.Batch)
+	seq := 0
+	orphan := func() *protobufcompiled.Vertex {
+		seq++
+		var l, rr ledger.H
+		rng.Read(l[:])
+		rng.Read(rr[:])
+		if seq%3 == 0 {
+			rr = l
+		}
+		t := ledger.ForgeTrx(rig.Users[1], rig.Users[2].Addr, fmt.Sprintf("orphan %d", seq), []byte("contract"), spice.Melange{}, time.Now().Add(-time.Minute))
+		v := ledger.ForgeVertex(rig.PeerAct[seq%2], t, l, rr, uint64(2+seq%50), time.Now().Add(-time.Second))
+		return gossip.VerifVertexToProtoVertex(&v)
+	}
+	sent, refused, replays := 0, 0, 0
+	send := func(k int) {
+		for i := 0; i < k; i++ {
+			w.Mark("orphan flood: vertex %d through gossip.GossipVrx (parked now %d)", seq+1, rig.Book.VerifParkedLen())
+			if _, err := rig.Gossip.GossipVrx(ctx, &protobufcompiled.VrxMsgGossip{Vertex: orphan()}); err != nil {
+				refused++
+			}
+			sent++
+		}
+	}
+	tick := func(k int) {
+		for i := 0; i < k; i++ {
+			w.Mark("orphan flood: replay %d of the orphan buffer (parked now %d)", replays+1, rig.Book.VerifParkedLen())
+			rig.Book.VerifRetryOne(ctx)
+			replays++
+		}
+	}
+	// fill to the brim and beyond, replay a little, fill again; then a long life of replays and arrivals
+	send(470)
+	tick(8)
+	send(60)
+	tick(40)
+	send(30)
+	for round := 0; round < w.Pick(12, 60); round++ {
+		tick(100 + rng.Intn(100))
+		send(20 + rng.Intn(40))
+	}
+	r.Eval(sent + replays)
+	r.Count("c15_orphan_flood_vertices_sent", sent)
+	r.Count("c15_orphan_flood_vertices_refused", refused)
+	r.Count("c15_orphan_flood_replays", replays)
+	r.Nontriv(fmt.Sprintf("orphan-flood/parked-at-end=%d", bucketN(rig.Book.VerifParkedLen())))
+	// the node still works
+	if _, err := rig.Book.CalculateBalance(ctx, rig.Users[0].Addr); err != nil {
+		r.Note("orphan flood: balance query afterwards: " + err.Error())
+	}
+}
+
 func c15Worker(w *core.WorkerCtx) {
 	if w.Batch%4 == 1 {
 		c15Concurrent(w)
+	}
+	if w.Batch%4 == 2 {
+		c15OrphanFlood(w)
 	}
 	rng := core.Rand(w.Seed, "C15", w.Batch)
 	rig, err := svc.New(4, 60, 2048)
